@@ -182,7 +182,7 @@ def make_builtins(ip):
   b["str"] = ExtClass("str", {"__new__": Builtin("str", lambda ip, v="": ip.to_str(v))},
                       check=lambda v: isinstance(v, (str, SStr)))
   b["list"] = ExtClass("list", {"__new__": Builtin("list", lambda ip, v=(): list(ip.iterate(v)))},
-                       check=lambda v: isinstance(v, list))
+                       check=lambda v: isinstance(v, list) or (isinstance(v, SNum) and isinstance(v.tag, dict) and bool(v.tag.get("pylist"))))
   b["tuple"] = ExtClass("tuple", {"__new__": Builtin("tuple", lambda ip, v=(): tuple(ip.iterate(v)))},
                         check=lambda v: isinstance(v, tuple))
   b["dict"] = ExtClass("dict", {"__new__": Builtin("dict", _dict_new)},
@@ -250,6 +250,8 @@ def _bool(ip, v):
 
 
 def _float(ip, v):
+  if isinstance(v, SNum) and isinstance(v.tag, dict) and v.tag.get("pylist"):
+    raise PyRaise("TypeError", ("float() argument must be a string or a real number, not 'list'",))
   if isinstance(v, SNum):
     return SNum(v.e, "float", v.grad)
   if isinstance(v, SBool):
@@ -570,7 +572,14 @@ def value_getattr(ip, obj, name):
     if name == "set_shape":
       return Builtin("set_shape", lambda ip_, *a, **k: None)
     if name == "tolist":
-      return Builtin("tolist", lambda ip_: obj)
+      # ndarray.tolist() is a (nested) Python list: no longer an np.ndarray instance (seed c09-7)
+      def _tolist(ip_):
+        tag = dict(obj.tag) if isinstance(obj.tag, dict) else {}
+        if not tag.pop("ndarray", None) or len(tuple(tag.get("shape", ()))) == 0:
+          return obj
+        tag["pylist"] = True
+        return SNum(obj.e, obj.pytype, obj.grad, tag)
+      return Builtin("tolist", _tolist)
     if name == "shape" and isinstance(obj.tag, dict) and "shape" in obj.tag:
       return shape_of(obj)
     return NotImplemented
@@ -1144,6 +1153,7 @@ def _np_array(ip, v, dtype=None, **k):
     return [_np_array(ip, x) for x in v]
   if isinstance(v, SNum):
     tag = dict(v.tag) if isinstance(v.tag, dict) else {}
+    tag.pop("pylist", None)
     tag["ndarray"] = True
     return SNum(v.e, v.pytype if v.pytype == "tensor" else "float", v.grad, tag)
   if isinstance(v, (int, float)):
